@@ -50,9 +50,12 @@ type MatchData struct {
 
 func newMatchState() *MatchData { return &MatchData{[]uint32{}} }
 
+// unsetCapture marks a slot of captures which has not been written (yet): the end of a capture that is still open.
+const unsetCapture = ^uint32(0)
+
 func (st *MatchData) addPosCapture(s, pos int) {
 	for s+1 >= len(st.captures) {
-		st.captures = append(st.captures, 0)
+		st.captures = append(st.captures, unsetCapture)
 	}
 	st.captures[s] = (uint32(pos) << 1) | 1
 	st.captures[s+1] = (uint32(pos) << 1) | 1
@@ -60,7 +63,7 @@ func (st *MatchData) addPosCapture(s, pos int) {
 
 func (st *MatchData) setCapture(s, pos int) uint32 {
 	for s >= len(st.captures) {
-		st.captures = append(st.captures, 0)
+		st.captures = append(st.captures, unsetCapture)
 	}
 	v := st.captures[s]
 	st.captures[s] = (uint32(pos) << 1)
@@ -593,8 +596,13 @@ redo:
 		return false, sp, m
 	case opNumber:
 		idx := inst.Operand1 * 2
-		if idx >= m.CaptureLength()-1 {
+		if idx >= m.CaptureLength()-1 || m.captures[idx+1] == unsetCapture {
+			// the capture has not been started or is still open
 			panic(newError(_UNKNOWN, "invalid capture index"))
+		}
+		if m.IsPosCapture(idx) {
+			// a position capture holds no substring: as in lstrlib the back-reference never matches
+			return false, sp, m
 		}
 		capture := src[m.Capture(idx):m.Capture(idx+1)]
 		for i := 0; i < len(capture); i++ {
